@@ -14,6 +14,7 @@ import (
 	"strings"
 	"sync"
 	"sync/atomic"
+	"time"
 	"unsafe"
 )
 
@@ -71,6 +72,7 @@ type VerifPoolTracker struct {
 	inPool     []bool
 	holder     []int
 	threads    []VerifPoolThread
+	lastAt     []time.Time // per thread: time of its last event
 	gidx       map[uint64]int
 	events     []VerifPoolEvent
 	violations []string
@@ -138,19 +140,23 @@ func verifPoolWho() (uint64, int) {
 
 // thread returns the index of the calling goroutine (mu held).
 func (t *VerifPoolTracker) thread(id uint64, stage int) int {
+	now := time.Now()
 	if g, ok := t.gidx[id]; ok {
 		if t.threads[g].Stage == stage {
+			t.lastAt[g] = now
 			return g
 		}
 		// A goroutine id seen in a different stage (a harness goroutine calling several entry
 		// points, or a reused id): a separate thread entry.
 		for i, th := range t.threads {
 			if th.GoID == id && th.Stage == stage {
+				t.lastAt[i] = now
 				return i
 			}
 		}
 	}
 	t.threads = append(t.threads, VerifPoolThread{GoID: id, Stage: stage})
+	t.lastAt = append(t.lastAt, now)
 	t.gidx[id] = len(t.threads) - 1
 	return len(t.threads) - 1
 }
@@ -262,6 +268,21 @@ func (t *VerifPoolTracker) Snapshot() ([]VerifPoolEvent, []VerifPoolThread, []st
 	return append([]VerifPoolEvent(nil), t.events...),
 		append([]VerifPoolThread(nil), t.threads...),
 		append([]string(nil), t.violations...), t.dropped
+}
+
+// Activity returns the number of events seen so far (logged or not) and, for every thread, the
+// time of its last event.
+func (t *VerifPoolTracker) Activity() (int, []VerifPoolThread, []time.Time) {
+	t.mu.Lock()
+	defer t.mu.Unlock()
+	return len(t.events) + t.dropped, append([]VerifPoolThread(nil), t.threads...),
+		append([]time.Time(nil), t.lastAt...)
+}
+
+// VerifPoolGoID returns the id of the calling goroutine, as it appears in VerifPoolThread.
+func VerifPoolGoID() uint64 {
+	id, _ := verifPoolWho()
+	return id
 }
 
 // ShadowInPool reports how many buffers the shadow state has in the pool.
